@@ -2,8 +2,10 @@
    and of the helpers it calls, mirroring the code AS IT IS:
 
      _list_objects_with_access_controls / _is_allowed_by_operation_policy / is_allowed
+     version gate:            every filter attribute must be supported under the request's version,
+                              else InvalidField before any object is looked at
      per object, per filter:  is_attribute_applicable_to_object_type  (generated rule table)
-                              _get_attribute_from_managed_object      (None -> `continue`)
+                              _get_attribute_from_managed_object      (None -> NO MATCH: add_object = False; break)
                               the per-attribute comparison            (mismatch -> `break`)
                               _track_date_attributes                  (start/end with swap, third date raises)
      after the filter loop:   `if initial_date.get("value")` (truthiness!) -> _is_valid_date
@@ -96,12 +98,11 @@ Definition filter_name (f : afilter) : string :=
   | FOther n => n
   end.
 
-(* policy.is_attribute_applicable_to_object_type; None = the rule set lookup
-   answered None and `.applies_to_object_types` raised AttributeError *)
-Definition applicable (f : afilter) (t : Z) : option bool :=
+(* policy.is_attribute_applicable_to_object_type (an unknown name answers False) *)
+Definition applicable (f : afilter) (t : Z) : bool :=
   match find_rule (filter_name f) with
-  | None => None
-  | Some r => Some (memZ t (ar_object_types r))
+  | None => false
+  | Some r => memZ t (ar_object_types r)
   end.
 
 (* the bits enums.get_enumerations_from_bit_mask can see *)
@@ -128,25 +129,22 @@ Definition fetch_compare (o : obj) (f : afilter) : step :=
   | FState v => if has_crypto_fields o then cmp (v =? o_state o) else StCrash
   | FObjType v => cmp (v =? o_type o)
   | FAlg v =>
-      if has_key_fields o then
-        match o_alg o with None => StNext (* `continue` *) | Some a => cmp (v =? a) end
-      else StCrash
+      (* getattr(managed_object, 'cryptographic_algorithm', None); None -> no match *)
+      match (if has_key_fields o then o_alg o else None) with None => StBreak | Some a => cmp (v =? a) end
   | FLen v =>
-      if has_key_fields o then
-        match o_len o with None => StNext | Some a => cmp (v =? a) end
-      else StCrash
+      match (if has_key_fields o then o_len o else None) with None => StBreak | Some a => cmp (v =? a) end
   | FMask m =>
       if has_crypto_fields o then
         cmp (Z.land (Z.land m known_mask) (o_mask o) =? Z.land m known_mask)
       else StCrash
-  | FPolicy s => match o_policy o with None => StNext | Some p => cmp (String.eqb s p) end
+  | FPolicy s => match o_policy o with None => StBreak | Some p => cmp (String.eqb s p) end
   | FGroup s => cmp (mem_string s (o_groups o))
   | FAsi ns d => cmp (mem_asi ns d (o_asi o))
   | FCertType v => if has_cert_fields o then cmp (v =? o_certtype o) else StCrash
   | FUid s => cmp (String.eqb s (uid_string (o_uid o)))
   | FSensitive b => cmp (Bool.eqb b (o_sensitive o))
   | FDate d => StDate (o_idate o) d
-  | FOther _ => StNext
+  | FOther _ => StBreak          (* the fetch answers None: the object has no value, so it does not match *)
   end.
 
 (* the `initial_date` dictionary *)
@@ -165,8 +163,9 @@ Definition track (ds : dst) (v d : Z) : option dst :=
       end
   end.
 
-Inductive res (A : Type) := Ok (a : A) | TooMany | Crash.
+Inductive res (A : Type) := Ok (a : A) | Refused | TooMany | Crash.
 Arguments Ok {A} a.
+Arguments Refused {A}.
 Arguments TooMany {A}.
 Arguments Crash {A}.
 
@@ -175,21 +174,18 @@ Fixpoint obj_loop (o : obj) (fs : list afilter) (ds : dst) : res (bool * dst) :=
   match fs with
   | [] => Ok (true, ds)
   | f :: fs' =>
-      match applicable f (o_type o) with
-      | None => Crash
-      | Some false => Ok (false, ds)              (* add_object = False; break *)
-      | Some true =>
-          match fetch_compare o f with
-          | StCrash => Crash
-          | StBreak => Ok (false, ds)
-          | StNext => obj_loop o fs' ds
-          | StDate v d =>
-              match track ds v d with
-              | None => TooMany
-              | Some ds' => obj_loop o fs' ds'
-              end
-          end
-      end
+      if applicable f (o_type o) then
+        match fetch_compare o f with
+        | StCrash => Crash
+        | StBreak => Ok (false, ds)
+        | StNext => obj_loop o fs' ds
+        | StDate v d =>
+            match track ds v d with
+            | None => TooMany
+            | Some ds' => obj_loop o fs' ds'
+            end
+        end
+      else Ok (false, ds)                         (* add_object = False; break *)
   end.
 
 Definition is_valid_date (v : Z) (st en : option Z) : bool :=
@@ -212,6 +208,7 @@ Definition obj_selected (o : obj) (fs : list afilter) : res bool :=
       Ok (if truthy_date (d_value ds)
           then add && is_valid_date (match d_value ds with Some v => v | None => 0 end) (d_start ds) (d_end ds)
           else add)
+  | Refused => Refused
   | TooMany => TooMany
   | Crash => Crash
   end.
@@ -225,9 +222,11 @@ Fixpoint filter_objs (os : list obj) (fs : list afilter) : res (list obj) :=
       | Ok b =>
           match filter_objs os' fs with
           | Ok l => Ok (if b then o :: l else l)
+          | Refused => Refused
           | TooMany => TooMany
           | Crash => Crash
           end
+      | Refused => Refused
       | TooMany => TooMany
       | Crash => Crash
       end
@@ -257,11 +256,13 @@ Definition page {A} (l : list A) (off mx : option Z) : list A :=
   | None, None => l
   end.
 
-(* _process_locate, given the access decision as a predicate on objects *)
+(* the object loop, sorting and slicing of _process_locate (after the version gate, see locate_request),
+   given the access decision as a predicate on objects *)
 Definition locate_objs (allowed : obj -> bool) (objs : list obj) (fs : list afilter) : res (list obj) :=
   let visible := filter allowed objs in
   match (match fs with [] => Ok visible | _ => filter_objs visible fs end) with
   | Ok l => Ok (sort_desc l)
+  | Refused => Refused
   | TooMany => TooMany
   | Crash => Crash
   end.
@@ -270,6 +271,7 @@ Definition locate_model (allowed : obj -> bool) (objs : list obj) (fs : list afi
                         (off mx : option Z) : res (list Z) :=
   match locate_objs allowed objs fs with
   | Ok l => Ok (map o_uid (page l off mx))
+  | Refused => Refused
   | TooMany => TooMany
   | Crash => Crash
   end.
@@ -297,8 +299,7 @@ Definition relevant_section (pols : policies) (pname : option string) (group : o
       | None => None
       | Some pb =>
           match group with
-          | Some g => if String.eqb g "" then p_preset pb          (* `if group:` *)
-                      else assoc_s g (p_groups pb)
+          | Some g => assoc_s g (p_groups pb)                       (* `if group is not None:` *)
           | None => p_preset pb
           end
       end
@@ -326,14 +327,13 @@ Definition allowed_of (pols : policies) (rq : requester) (o : obj) : bool :=
 (* "the object carries this attribute value", read off the property text; date filters are
    handled together (one = exact, two = inclusive range), see date_match *)
 Definition matches (o : obj) (f : afilter) : bool :=
-  match applicable f (o_type o) with
-  | Some true =>
+  applicable f (o_type o) &&
       match f with
       | FName s t => mem_string s (o_names o) && (t =? NT_UNINTERPRETED)
       | FState v => o_state o =? v
       | FObjType v => o_type o =? v
-      | FAlg v => match o_alg o with Some a => a =? v | None => false end
-      | FLen v => match o_len o with Some a => a =? v | None => false end
+      | FAlg v => has_key_fields o && match o_alg o with Some a => a =? v | None => false end
+      | FLen v => has_key_fields o && match o_len o with Some a => a =? v | None => false end
       | FMask m => Z.land m (o_mask o) =? m                    (* every requested bit is set *)
       | FPolicy s => match o_policy o with Some p => String.eqb p s | None => false end
       | FGroup s => mem_string s (o_groups o)
@@ -343,9 +343,7 @@ Definition matches (o : obj) (f : afilter) : bool :=
       | FSensitive b => Bool.eqb (o_sensitive o) b
       | FDate _ => true
       | FOther _ => false                                      (* the server keeps no such value *)
-      end
-  | _ => false
-  end.
+      end.
 
 Definition filter_dates (fs : list afilter) : list Z :=
   flat_map (fun f => match f with FDate d => [d] | _ => [] end) fs.
@@ -373,13 +371,10 @@ Definition locate_spec (allowed : obj -> bool) (objs : list obj) (fs : list afil
                        (off mx : option Z) : list Z :=
   map o_uid (slice off mx (spec_objs allowed objs fs)).
 
-(* ------------------------------------------------------------------ optional version gate
-   Proposed repair fixes/C16-locate-attr-gate (not in /repo today): before the object loop, a filter
-   naming an attribute the request's protocol version does not have (policy.is_attribute_supported:
-   known name and version >= version_added) is refused with InvalidField.  The harness detects in
-   the source whether _process_locate calls is_attribute_supported and sets `gate` accordingly, so
-   the correspondence follows the code in either state.  The theorems are about locate_model, i.e.
-   about requests that pass the gate. *)
+(* ------------------------------------------------------------------ version gate and the whole operation
+   Before the object loop (and only when the request carries filters) every filter attribute must be
+   supported under the request's protocol version (policy.is_attribute_supported: known name and
+   version >= version_added); otherwise InvalidField "The ... attribute is unsupported." *)
 Definition ver_ge (a b : Z * Z) : bool :=
   (fst b <? fst a) || ((fst a =? fst b) && (snd b <=? snd a)).
 
@@ -389,13 +384,18 @@ Definition attribute_supported (ver : Z * Z) (name : string) : bool :=
   | Some r => ver_ge ver (ar_version_added r)
   end.
 
-Definition passes_gate (gate : bool) (ver : Z * Z) (fs : list afilter) : bool :=
-  negb gate || forallb (fun f => attribute_supported ver (filter_name f)) fs.
+Definition gate_ok (ver : Z * Z) (fs : list afilter) : bool :=
+  forallb (fun f => attribute_supported ver (filter_name f)) fs.
+
+(* _process_locate *)
+Definition locate_request (ver : Z * Z) (allowed : obj -> bool) (objs : list obj) (fs : list afilter)
+                          (off mx : option Z) : res (list Z) :=
+  if gate_ok ver fs then locate_model allowed objs fs off mx else Refused.
 
 (* ------------------------------------------------------------------ comparator (tie K) *)
 
 Record kcase := mkCase {
-  k_gate : bool; k_ver : Z * Z;
+  k_ver : Z * Z;
   k_pols : policies; k_req : requester; k_objs : list obj; k_fs : list afilter;
   k_off : option Z; k_max : option Z;
   k_obs : option (list Z)        (* identifiers the implementation answered, in order; None = the item failed *)
@@ -409,15 +409,12 @@ Fixpoint list_eqbZ (a b : list Z) : bool :=
   end.
 
 Definition model_of_case (c : kcase) : res (list Z) :=
-  locate_model (allowed_of (k_pols c) (k_req c)) (k_objs c) (k_fs c) (k_off c) (k_max c).
+  locate_request (k_ver c) (allowed_of (k_pols c) (k_req c)) (k_objs c) (k_fs c) (k_off c) (k_max c).
 
 Definition check_case (c : kcase) : bool :=
-  if negb (passes_gate (k_gate c) (k_ver c) (k_fs c)) then
-    match k_obs c with None => true | Some _ => false end
-  else
   match model_of_case c, k_obs c with
   | Ok l, Some l' => list_eqbZ l l'
-  | TooMany, None => true
-  | Crash, None => true
-  | _, _ => false
+  | Ok _, None => false
+  | _, None => true
+  | _, Some _ => false
   end.
